@@ -10,12 +10,22 @@ Record cfg := {
   c_v2 : bool;           (* rows events v2 (30..32) instead of v1 (23..25) *)
   c_tid4 : bool;         (* 4-byte table ids (post-header length 6) — only with v1 rows events *)
   c_hlen : Z;            (* common header length, >= 19; extra header bytes are zero *)
-  c_nsizes : Z           (* number of entries of the post-header-length table, >= 35 *)
+  c_nsizes : Z;          (* number of entries of the post-header-length table, >= 35 *)
+  (* Every bitmap of a row-based event occupies ceil(n/8) bytes; the unused high bits of its last byte
+     ("padding") are whatever the master's buffer held: 0 after bitmap_init / a copied write_set, 1 after
+     bitmap_set_all, 1 in a row's NULL bitmap (pack_row starts every byte from 0xff).  Bit k of these three
+     bytes is what the master leaves in an unused bit k, per kind of bitmap.  All are arbitrary bytes. *)
+  c_pad_cols : Z;        (* columns-present bitmaps of a rows event *)
+  c_pad_null : Z;        (* NULL bitmap of every row image *)
+  c_pad_tm : Z           (* nullable-columns bitmap of a table map *)
 }.
+
+Definition is_pad (p : Z) : bool := (0 <=? p) && (p <? 256).
 
 Definition wf_cfg (c : cfg) : bool :=
   (19 <=? c_hlen c) && (c_hlen c <=? 255) && (35 <=? c_nsizes c) && (c_nsizes c <=? 255) &&
-  (negb (c_tid4 c) || negb (c_v2 c)).
+  (negb (c_tid4 c) || negb (c_v2 c)) &&
+  is_pad (c_pad_cols c) && is_pad (c_pad_null c) && is_pad (c_pad_tm c).
 
 Definition alg_of (c : cfg) : Z := if c_crc c then 1 else 0.
 
@@ -83,6 +93,17 @@ Fixpoint pack_bits_fuel (fuel : nat) (bits : list bool) : bytes :=
   end.
 Definition pack_bits (bits : list bool) : bytes := pack_bits_fuel (length bits) bits.
 
+(* The same with padding pattern `pad` (a byte): when the number of bits is not a multiple of 8, the unused
+   high bits k = n mod 8 .. 7 of the last byte are bits k of pad.  The bytes before the last one, the length
+   ceil(n/8) and the n meaningful bits are those of pack_bits; pad 0 gives pack_bits itself
+   (Proofs/BitmapProofs.v pack_bits_pad_0, pack_bits_pad_length, bitmap_bit_ok). *)
+Definition pad_tail (pad : Z) (n : nat) : list bool :=
+  match (n mod 8)%nat with
+  | O => []
+  | k => map (fun i => Z.testbit pad (Z.of_nat i)) (seq k (8 - k))
+  end.
+Definition pack_bits_pad (pad : Z) (bits : list bool) : bytes := pack_bits (bits ++ pad_tail pad (length bits)).
+
 (* metadata bytes of one column, in the byte order the table map uses *)
 Definition meta_bytes (ty : coltype) : bytes :=
   let m := meta_of ty in
@@ -106,7 +127,7 @@ Definition enc_table_map_body (c : cfg) (t : table_def) : bytes :=
   enc_table_id c (td_id t) ++ le_enc 2 (td_flags t) ++
   [len (td_db t)] ++ td_db t ++ [0] ++ [len (td_name t)] ++ td_name t ++ [0] ++
   enc_lenenc (len (td_cols t)) ++ map (fun p => code_of (fst p)) (td_cols t) ++
-  enc_lenenc (len metas) ++ metas ++ pack_bits (map snd (td_cols t)) ++ td_optional t.
+  enc_lenenc (len metas) ++ metas ++ pack_bits_pad (c_pad_tm c) (map snd (td_cols t)) ++ td_optional t.
 
 (* a row image: for every column  absent | NULL | value *)
 Inductive cellv := CAbsent | CNull | CVal (v : value).
@@ -125,8 +146,9 @@ Fixpoint image_cells (tys : list coltype) (img : list cellv) : bytes :=
   | _ :: tr, _ :: ir => image_cells tr ir
   | _, _ => []
   end.
-Definition enc_image (tys : list coltype) (img : list cellv) : bytes :=
-  pack_bits (null_bits img) ++ image_cells tys img.
+(* pad: the padding pattern of the NULL bitmap *)
+Definition enc_image (pad : Z) (tys : list coltype) (img : list cellv) : bytes :=
+  pack_bits_pad pad (null_bits img) ++ image_cells tys img.
 
 (* kind: 0 write, 1 update, 2 delete.  All rows of one event share the presence bitmaps. *)
 Record rows_def := {
@@ -140,12 +162,12 @@ Definition rows_type (c : cfg) (kind : Z) : Z := (if c_v2 c then 30 else 23) + k
 Definition first_present (l : list (list cellv)) (n : nat) : list bool :=
   match l with img :: _ => present_bits img | [] => repeat true n end.
 
-Fixpoint zip_rows (tys : list coltype) (kind : Z) (b a : list (list cellv)) {struct b} : bytes :=
+Fixpoint zip_rows (pad : Z) (tys : list coltype) (kind : Z) (b a : list (list cellv)) {struct b} : bytes :=
   match kind with
-  | 0 => flat_map (enc_image tys) a
-  | 2 => flat_map (enc_image tys) b
+  | 0 => flat_map (enc_image pad tys) a
+  | 2 => flat_map (enc_image pad tys) b
   | _ => match b, a with
-         | x :: br, y :: ar => enc_image tys x ++ enc_image tys y ++ zip_rows tys kind br ar
+         | x :: br, y :: ar => enc_image pad tys x ++ enc_image pad tys y ++ zip_rows pad tys kind br ar
          | _, _ => []
          end
   end.
@@ -155,9 +177,9 @@ Definition enc_rows_body (c : cfg) (tys : list coltype) (r : rows_def) : bytes :
   enc_table_id c (rd_id r) ++ le_enc 2 (rd_flags r) ++
   (if c_v2 c then le_enc 2 (2 + len (rd_extra r)) ++ rd_extra r else []) ++
   enc_lenenc (Z.of_nat n) ++
-  (if rd_kind r =? 0 then [] else pack_bits (first_present (rd_before r) n)) ++
-  (if rd_kind r =? 2 then [] else pack_bits (first_present (rd_after r) n)) ++
-  zip_rows tys (rd_kind r) (rd_before r) (rd_after r).
+  (if rd_kind r =? 0 then [] else pack_bits_pad (c_pad_cols c) (first_present (rd_before r) n)) ++
+  (if rd_kind r =? 2 then [] else pack_bits_pad (c_pad_cols c) (first_present (rd_after r) n)) ++
+  zip_rows (c_pad_null c) tys (rd_kind r) (rd_before r) (rd_after r).
 
 (* expected delivery of one image: per column (type code, absent flag, data) *)
 Definition expect_cell (ty : coltype) (uns : bool) (cv : cellv) : Z * bool * option bytes :=
